@@ -244,6 +244,17 @@ theorem kernelkill_partial (cfg : KillCfg) (v : View) (k : Nat) (env : Env) (hd 
              by simp [List.filter_append, hRs, List.filter_cons, isStat],
              by simp [List.filter_append, hRm, List.filter_cons, isKmsg]⟩
 
+/-! ## names and numbers the property mentions (regenerated from the sources by the translator on every run) -/
+
+theorem xattr_names :
+    XName.str .uuidT = "trusted.oomd_kill_uuid" ∧ XName.str .uuidU = "user.oomd_kill_uuid" ∧
+    XName.str .oomsT = "trusted.oomd_ooms" ∧ XName.str .oomsU = "user.oomd_ooms" ∧
+    XName.str .killT = "trusted.oomd_kill" ∧ XName.str .killU = "user.oomd_kill" ∧
+    OomdModel.Generated.statKills = "oomd.kills" := by decide
+
+/-- CONTINUE / STOP / ASYNC_PAUSED as the engine numbers them -/
+theorem ret_values : Ret.cont.toNat = 0 ∧ Ret.stop.toNat = 1 ∧ Ret.async.toNat = 2 := by decide
+
 /-! ## non-vacuity -/
 
 private def nd (id : Nat) (cs : List View := []) : View :=
